@@ -144,7 +144,7 @@ func genC17Err(e *emitter, tier string, rng *rand.Rand) {
 		"#\n", "p(1)\nif true {\n  #\n}\n", "for x in [1] {\n  p(x)\n}\n#\n", "for i = 0; i < 1; i = i + 1 {\n}\n  #\n",
 	}
 	loadOff := []string{"nosuch()", "nosuch(1, 2)", "len()", "len(1, 2)", "add_key()", "cast(k, \"nosuchtype\")", "pr(nosuch())", "[nosuch()]", "{1: 2}", "grok(_, \"%{NOSUCH:a}\")"}
-	runOff := []string{"(1 / zero0)", "(\"a\" - 1)", "(zero0 % 0.0)", "undefl[0]", "(1 + [1])", "(nil * 2)", "l9[5]"}
+	runOff := []string{"(1 / zero0)", "(\"a\" - 1)", "(\"a\" % 2)", "(zero0 % 0.0)", "undefl[0]", "(1 + [1])", "(nil * 2)", "l9[5]"}
 	stmtLoad := []string{"break", "continue", "nosuch()", "x = nosuch()", "if nosuch() {\n}"}
 	stmtRun := []string{"x = 1 / zero0", "l9[7] = 1", "x = \"a\" - 1"}
 	emit := func(src, gen string, a, b int, errj any, file string, srcs map[string]string) {
@@ -297,8 +297,10 @@ func genC17Chain(e *emitter, tier string, rng *rand.Rand) {
 	if tier == "thorough" {
 		depth = 4
 	}
+	// (the message is text, never a format: percent signs, verbs and line breaks come out as they went in)
+	msgs := []string{"boom: x", "unsupported operand type(s) for %: str and int", "100%", "%d %s %v %!", "%%", "a: b\nc %"}
 	for base := 1; base <= 4; base++ {
-		start := []chainOp{{Op: "new", File: hx("a.p"), Ln: 1, Col: 1, Pos: 0, Msg: hx("boom: x")}}
+		start := []chainOp{{Op: "new", File: hx("a.p"), Ln: 1, Col: 1, Pos: 0, Msg: hx(msgs[(base-1)%len(msgs)])}}
 		for i := 1; i < base; i++ {
 			o := mkPos(i)
 			o.Op, o.H = "append", 0
@@ -324,13 +326,13 @@ func genC17Chain(e *emitter, tier string, rng *rand.Rand) {
 		N = 20000
 	}
 	for i := 0; i < N; i++ {
-		ops := []chainOp{{Op: "new", File: hx(files[rng.Intn(3)]), Ln: 1 + rng.Intn(5), Col: 1 + rng.Intn(80), Pos: rng.Intn(500), Msg: hx([]string{"m", "a: b\nc", ""}[rng.Intn(3)])}}
+		ops := []chainOp{{Op: "new", File: hx(files[rng.Intn(3)]), Ln: 1 + rng.Intn(5), Col: 1 + rng.Intn(80), Pos: rng.Intn(500), Msg: hx(append([]string{"m", "a: b\nc", ""}, msgs...)[rng.Intn(3+len(msgs))])}}
 		handles := 1
 		for k := 2 + rng.Intn(12); k > 0; k-- {
 			switch rng.Intn(5) {
 			case 0:
 				o := mkPos(rng.Intn(50))
-				o.Op, o.Msg = "new", hx("other")
+				o.Op, o.Msg = "new", hx([]string{"other", "50% of %s"}[rng.Intn(2)])
 				ops = append(ops, o)
 				handles++
 			case 1, 2:
